@@ -394,7 +394,7 @@ def r_step(rnd, ext, first_inc=False):
     items = []
     rules = [r_rule(rnd, ext) for _ in range(rnd.choice([0, 1, 2, 3, 5, 9]))]
     if first_inc:
-        rules = [[90, 0]] + rules if rnd.random() < 0.7 else [[rnd.choice([91, 92]), 3] + ([1] if False else [])][:0] + [[92, r_atom(rnd)]] + rules
+        rules = [[90, 0] if rnd.random() < 0.7 else [92, r_atom(rnd)]] + rules
     for r in rules:
         items.append(('line', [('n', v) for v in r]))
     items.append(('line', [('n', 0)]))
@@ -419,39 +419,40 @@ def r_step(rnd, ext, first_inc=False):
 
 
 def render(items, rnd, style):
-    """style: 'lf' canonical, 'crlf', 'wild' (random whitespace between numeric tokens, numbers spread over lines)"""
+    """style: 'lf' canonical, 'crlf', 'wild' (random whitespace between tokens, signs / leading zeros, rules spread over lines)"""
     nl = {'lf': [10], 'crlf': [13, 10]}.get(style)
+    wild = style == 'wild'
     out = []
-    first = True
+
+    def number(v):
+        if wild:
+            if out and out[-1] not in (10, 13):
+                out.extend(rnd.choice([[32], [32], [32, 32], [9], [10], [13, 10], [32, 10, 32], [13], [11], [12]]))
+            elif out and rnd.random() < 0.3:
+                out.extend(rnd.choice([[32], [10], [9, 32]]))
+            if rnd.random() < 0.1:
+                out.extend(rnd.choice([b'0', b'00', b'+', b'+0']))
+        out.extend(str(v).encode())
     for it in items:
         e = nl or rnd.choice([[10], [13, 10], [10], [13]])
         if it[0] == 'line':
             for j, (_, v) in enumerate(it[1]):
-                if style == 'wild':
-                    if not first:
-                        out += rnd.choice([[32], [32], [32, 32], [9], [10], [13, 10], [32, 10, 32], [13], [11], [12]]) if (j or out[-1:] not in ([10], [13])) or rnd.random() < 0.3 else []
-                    out += list(str(v).encode()) if rnd.random() < 0.9 else list(rnd.choice(['0', '00', '+']).encode() + str(v).encode())
-                else:
-                    if j:
-                        out += [32]
-                    out += list(str(v).encode())
-                first = False
-            if style != 'wild':
-                out += e
-            elif rnd.random() < 0.7:
-                out += e
+                if j and not wild:
+                    out.append(32)
+                number(v)
+            if not wild or rnd.random() < 0.7:
+                out.extend(e)
         elif it[0] == 'sym':
-            if style == 'wild' and out and out[-1] not in (10, 13, 32):
-                out += [32]
-            out += list(str(it[1]).encode()) + [it[2]] + list(it[3]) + (e if e != [13] else [10])
+            number(it[1])
+            out.append(it[2])
+            out.extend(it[3])
+            out.extend(e)
         else:
-            if style == 'wild' and rnd.random() < 0.3:
-                out += [32]
-            out += list(it[1])
-            if it[1] != b'E':
-                out += e if e != [13] else [10]
-            elif style != 'wild' or rnd.random() < 0.7:
-                out += e
+            if wild and rnd.random() < 0.3:
+                out.append(32)
+            out.extend(it[1])
+            if it[1] != b'E' or not wild or rnd.random() < 0.7:
+                out.extend(e)
     return out
 
 
